@@ -1,5 +1,7 @@
 import AcraModel.KeystoreSec.PathLemmas
 import AcraModel.Generated.KeystoreSec
+import AcraModel.KeystoreSec.WriteLog
+import AcraModel.Crypto.Box
 /-!
 # C07 — keys at rest are encrypted, bound to their owner, tamper-evident and confined
 
@@ -7,7 +9,7 @@ Property theorems only. Part 1 (this section): confinement of the v2 directory b
 (`DirectoryBackend.osPath`, used by every `Get/Put/Rename/RenameNX`).
 -/
 namespace AcraModel.Props.C07
-open AcraModel AcraModel.KeystoreSec AcraModel.KeystoreSec.Path
+open AcraModel AcraModel.KeystoreSec AcraModel.KeystoreSec.Path AcraModel.KeystoreSec.Export AcraModel.KeystoreSec.WriteLog
 
 /-! ## facts the models need from the source (regenerated on every run) -/
 open Generated.KeystoreSec in
@@ -135,5 +137,126 @@ theorem osPath_rejects_witness :
 /-- non-vacuity: an ordinary nested key path is accepted and lands below the root -/
 example : osPath (ofStr "/tmp/ks/root") (ofStr "client/a\\b/../storage.keyring")
     = .ok (ofStr "/tmp/ks/root/client/a/storage.keyring") := by decide
+
+/-! ## keys at rest are encrypted -/
+
+/-- **Every write is sealed (v2).** Whatever ring the key store writes (`ringFile`), each key-data
+item inside the signed ring is sealed w.r.t. the plaintext it came from: the public key as given,
+the private / symmetric part absent or `enc master (context of this ring, seqnum and purpose)
+secret nonce` – the secret itself is never what is stored (structural "never in clear", DESIGN §4.3). -/
+theorem writes_are_sealed (c : CryptoOps) (ν : Nonces) (master : Bytes) (x r : Ring)
+    (h : storedRing c ν master x = some r) :
+    r.purpose = x.purpose ∧ r.current = x.current ∧
+    ∀ k' ∈ r.keys, ∃ k ∈ x.keys, k'.seq = k.seq ∧ k'.state = k.state ∧
+      ∀ e ∈ k'.data, ∃ d ∈ k.data, SealedData c master x.purpose k.seq d e := by
+  unfold storedRing at h
+  cases hk : x.keys.mapM (fun (k : Key) => (k.data.mapM (addKeyData c ν master x.purpose k.seq)).map fun ds => { k with data := ds }) with
+  | none => simp [hk] at h
+  | some ks =>
+    simp [hk] at h
+    subst h
+    refine ⟨rfl, rfl, ?_⟩
+    intro k' hk'
+    obtain ⟨k, hkm, hfk⟩ := mapM_mem _ _ _ hk k' hk'
+    cases hd : k.data.mapM (addKeyData c ν master x.purpose k.seq) with
+    | none => simp [hd] at hfk
+    | some ds =>
+      simp [hd] at hfk
+      subst hfk
+      refine ⟨k, hkm, rfl, rfl, ?_⟩
+      intro e he
+      obtain ⟨d, hdm, hfd⟩ := mapM_mem _ _ _ hd e he
+      exact ⟨d, hdm, addKeyData_sealed c ν master x.purpose k.seq d e hfd⟩
+
+/-- a sealed value is never the secret itself (length law of the AEAD) -/
+theorem sealed_ne_secret (c : CryptoOps) (hlen : SealLen c) (k x m n ct : Bytes) (h : c.enc k x m n = some ct) : ct ≠ m := by
+  intro e
+  have := hlen.enc_len k x m n ct h
+  rw [e] at this
+  simp [sealOverhead] at this
+
+/-- **Bound to owner and purpose.** A stored secret opens only under the very master key and the
+very context (ring path, sequence number, private/symmetric purpose) it was sealed with: under any
+other key or any other context bytes decryption fails – a key item copied into another ring, another
+slot or another purpose does not load. (Key commitment + authenticity of the AEAD.) -/
+theorem bound_to_owner (c : CryptoOps) (hl : SealLaws c) (hc : SealCommit c) (k x m n ct k' x' : Bytes)
+    (h : c.enc k x m n = some ct) (hne : k' ≠ k ∨ x' ≠ x) : c.dec k' x' ct = none := by
+  cases hd : c.dec k' x' ct with
+  | none => rfl
+  | some m' =>
+    obtain ⟨n', _, hn'⟩ := hl.enc_of_dec _ _ _ _ hd
+    have := hc.enc_inj _ _ _ _ _ _ _ _ _ hn' h
+    rcases hne with e | e
+    · exact absurd this.1 e
+    · exact absurd this.2.1 e
+
+/-- the private-key and the symmetric-key contexts of one slot differ, and contexts of different
+sequence numbers in one ring differ – so `bound_to_owner` applies to purpose and slot swaps inside a ring -/
+theorem contexts_differ (p : Bytes) :
+    privCtx p 1 ≠ symCtx p 1 ∧ privCtx p 1 ≠ privCtx p 2 := by
+  constructor
+  · intro h
+    simp only [privCtx, symCtx, ksCtx, ringCtx, List.append_assoc] at h
+    have h1 := List.append_cancel_left h
+    have h2 := List.append_cancel_left h1
+    have h3 := List.append_cancel_left h2
+    revert h3; decide
+  · intro h
+    simp only [privCtx, ksCtx, ringCtx, List.append_assoc] at h
+    have h1 := List.append_cancel_left h
+    have h2 := List.append_cancel_left h1
+    have h3 := List.append_cancel_left h2
+    revert h3; decide
+
+/-! ## tamper evidence of stored rings -/
+
+/-- **Ring tamper detection.** If a container carrying the signatures of an honestly signed ring
+verifies under the key store's signature key for ring path `p'`, then its signed span is byte for
+byte the honest payload and `p'` is the path it was signed for: any change of any byte of the signed
+span (sequence numbers, states, validity, key data, current marker, time stamp), and any copy of the
+file to another ring path, is rejected when the ring is read. (Collision freedom of the HMAC.) -/
+theorem ring_tamper (c : CryptoOps) (hi : HashInj c) (key p raw p' raw' : Bytes)
+    (h : Notary.verify c key (sigCtx p') ⟨raw', (Notary.sign c key (sigCtx p) raw).sigs⟩ = true)
+    (hlen : raw'.length = raw.length ∨ p' = p) : raw' = raw ∧ p' = p := by
+  have h2 := (Notary.verify_forces c hi _ _ _ _ _ _ h).2
+  simp only [sigCtx, ksCtx, List.append_assoc] at h2
+  have h3 := List.append_cancel_left (List.append_cancel_left h2)
+  -- h3 : p' ++ (": " ++ raw') = p ++ (": " ++ raw)
+  rcases hlen with hl | hp
+  · have hlen2 : (ofStr ": " ++ raw').length = (ofStr ": " ++ raw).length := by simp [hl]
+    have hp : p' = p := by
+      have := congrArg List.length h3
+      simp only [List.length_append] at this
+      have hpl : p'.length = p.length := by omega
+      exact (List.append_inj h3 hpl).1
+    subst hp
+    exact ⟨List.append_cancel_left (List.append_cancel_left h3), rfl⟩
+  · subst hp
+    exact ⟨List.append_cancel_left (List.append_cancel_left h3), rfl⟩
+
+/-- signatures that are not the honest one are rejected: with the honest payload and path, every
+known-algorithm signature in the set must equal the HMAC, and at least one must be present -/
+theorem ring_signature_needed (c : CryptoOps) (key ctx raw : Bytes) (sigs : List Notary.Sig)
+    (h : Notary.verify c key ctx ⟨raw, sigs⟩ = true) :
+    (∃ s ∈ sigs, s.oid = Notary.sha256OID) ∧
+    ∀ s ∈ sigs, s.oid = Notary.sha256OID → s.sig = Notary.signBytes c key ctx raw := by
+  simp only [Notary.verify, Bool.and_eq_true, Bool.not_eq_true', List.all_eq_true, List.mem_filter, decide_eq_true_eq, beq_iff_eq, and_imp] at h
+  constructor
+  · cases hf : sigs.filter (fun s => decide (s.oid = Notary.sha256OID)) with
+    | nil => simp [hf] at h
+    | cons s r =>
+      have : s ∈ sigs.filter (fun s => decide (s.oid = Notary.sha256OID)) := by simp [hf]
+      simp only [List.mem_filter, decide_eq_true_eq] at this
+      exact ⟨s, this.1, this.2⟩
+  · intro s hs ho
+    exact h.2 s hs ho
+
+/-! ## non-vacuity -/
+
+example : SealLaws boxOps ∧ SealCommit boxOps ∧ HashInj boxOps := ⟨Box.sealLaws, Box.sealCommit, Box.hashInj⟩
+
+/-- a ring with one symmetric key is storable under the Box instance: `writes_are_sealed` has instances -/
+example : (storedRing boxOps (fun _ _ => List.replicate 12 0) [1] ⟨ofStr "r", [⟨1, 1, 0, 10, [⟨fmtSym, [], [], [7]⟩]⟩], 1⟩).isSome = true := by
+  decide
 
 end AcraModel.Props.C07
